@@ -1043,6 +1043,7 @@ class HttpPayloadParser:
                             set_exception(self.payload, exc)
                             raise exc
                         self._chunk_tail = chunk
+                        self._paused = False
                         return PayloadState.PAYLOAD_NEEDS_INPUT, b""
 
                 # read chunk and feed buffer
@@ -1081,6 +1082,7 @@ class HttpPayloadParser:
                         raise exc
                     else:
                         self._chunk_tail = chunk
+                        self._paused = False
                         return PayloadState.PAYLOAD_NEEDS_INPUT, b""
 
                 if self._chunk == ChunkState.PARSE_TRAILERS:
@@ -1093,6 +1095,7 @@ class HttpPayloadParser:
                             set_exception(self.payload, exc)
                             raise exc
                         self._chunk_tail = chunk
+                        self._paused = False
                         return PayloadState.PAYLOAD_NEEDS_INPUT, b""
 
                     line = chunk[:pos]
@@ -1136,6 +1139,10 @@ class HttpPayloadParser:
                 self._eof_pending = False
                 return PayloadState.PAYLOAD_COMPLETE, b""
 
+        # All input was consumed, so there is nothing left to hold back: a pause
+        # requested meanwhile must not swallow the next read (the reader may be
+        # drained by then and nobody would resume us).
+        self._paused = False
         return PayloadState.PAYLOAD_NEEDS_INPUT, b""
 
 
